@@ -64,12 +64,15 @@ fn to_alphabet(mode: Mode, raw: &[u8]) -> Vec<u8> {
 const REPS: [usize; 16] = [1, 1, 1, 1, 1, 1, 1, 1, 2, 3, 4, 7, 16, 40, 100, 300];
 
 /// Header: [mode selector, level selector, version selector, mask selector, repetition/trim selector], then payload.
-/// mode selector (mod 9): 0 automatic over raw bytes, 1 automatic over digits, 2 automatic over the 45-set,
+/// mode selector (mod 10; 9 = steered matrix, see `steered_build_case`): 0 automatic over raw bytes, 1 automatic over digits, 2 automatic over the 45-set,
 /// 3 forced Numeric, 4 forced Alphanumeric, 5 forced Byte, 6 forced Alphanumeric over digits, 7 forced Byte over
 /// digits, 8 forced Byte over the 45-set. A forced mode therefore only ever sees input inside its alphabet.
 pub fn build_case(data: &[u8]) -> (BuildCase, &'static str) {
     let mut c = Cur::new(data);
-    let ms = c.u8() % 9;
+    let ms = c.u8() % 10;
+    if ms == 9 {
+        return steered_build_case(&mut c);
+    }
     let ls = c.u8() % 5;
     let vs = c.u8();
     let ks = c.u8();
@@ -398,4 +401,40 @@ fn png_ops(c: &mut Cur) -> Vec<c14::SvgOp> {
             _ => c14::SvgOp::Shape(c.below(6), None),
         })
         .collect()
+}
+
+/// Steered matrices for the fuzzer: [level, version, mask, n items] then 6 bytes per steering item
+/// (kind, orientation/base flags, line index, start, two run lengths / exception positions), rest = filler.
+fn steered_build_case(c: &mut Cur) -> (BuildCase, &'static str) {
+    use crate::gens::{steer_constraints, steer_payload, SteerItem};
+    let level = Level::from_index((c.u8() % 4) as usize);
+    let version = 1 + c.below(40);
+    let mask = c.u8() % 8;
+    let n = size(version);
+    let nitems = 1 + c.below(4);
+    let mut items = Vec::new();
+    for _ in 0..nitems {
+        let kind = c.u8() % 4;
+        let flags = c.u8();
+        let idx = match flags >> 4 & 3 {
+            0 => n - 1,
+            1 => n - 1 - c.below(3),
+            _ => c.below(n),
+        };
+        let vertical = flags & 1 != 0;
+        let val = flags & 2 != 0;
+        let a = c.below(n);
+        let b = 1 + c.below(70);
+        let d = 1 + c.below(70);
+        items.push(match kind {
+            0 => SteerItem::Line { vertical, index: idx, base: val, exceptions: vec![a, (a + b) % n], pair: flags & 4 != 0 },
+            1 => SteerItem::Runs { vertical, index: idx, start: a, first: val, runs: vec![b, d, b] },
+            2 => SteerItem::Finder { vertical, index: idx, start: a },
+            _ => SteerItem::Rect { r0: idx, c0: a, h: 1 + (b % 5), w: d, val },
+        });
+    }
+    let filler = c.rest();
+    let cons = steer_constraints(n, &items);
+    let (payload, _) = steer_payload(version, level, mask, &cons, filler);
+    (BuildCase::new(payload, Opts { mode: Some(Mode::Byte), level: Some(level), version: Some(version), mask: Some(mask) }), "fuzz:steered")
 }
